@@ -155,8 +155,8 @@ class LineTracer:
                 # chained fault must be of another kind: io / trial)
                 raise KeyboardInterrupt()
             if f['kind'] == 'kill':
-                proc.dead = True
-                raise SimKill()
+                from .sandbox import kill
+                kill(proc)
         return self._local
 
     def start(self):
@@ -270,8 +270,8 @@ def trial_boundary(proc):
         proc.sim.count_fault(f['kind'] + ':trial')
         proc.sim.log.add(proc.pid, 'trial-' + f['kind'], idx)
         if f['kind'] == 'kill':
-            proc.dead = True
-            raise SimKill()
+            from .sandbox import kill
+            kill(proc)
         if f['kind'] == 'ki':
             raise KeyboardInterrupt()
         if f['kind'] == 'clock_jump':
